@@ -80,15 +80,15 @@ type C14Case struct {
 }
 
 type C14Obs struct {
-	RouteOK bool       `json:"route_ok"`
-	ReqOK   bool       `json:"req_ok"`
-	Resp    [][3]any   `json:"resp_oracle"`
-	Called  bool       `json:"called"`
-	Code    int        `json:"code"`
-	Body    string     `json:"body"`
-	Panic   string     `json:"panic,omitempty"`
-	Errs    [][2]int   `json:"errs"`
-	ErrsObs bool       `json:"errs_observed"`
+	RouteOK bool     `json:"route_ok"`
+	ReqOK   bool     `json:"req_ok"`
+	Resp    [][3]any `json:"resp_oracle"`
+	Called  bool     `json:"called"`
+	Code    int      `json:"code"`
+	Body    string   `json:"body"`
+	Panic   string   `json:"panic,omitempty"`
+	Errs    [][2]int `json:"errs"`
+	ErrsObs bool     `json:"errs_observed"`
 }
 
 func hopCoq(h Hop) string {
